@@ -37,8 +37,11 @@ META = dict(
     tie_theorems=['Onsager.C14.src_located', 'Onsager.C14.src_verdict', 'Onsager.C14.src_history_independent_if_copy'],
     rule='histories over a pool of 4 inputs (2 vacancy keys x 2 solute variants) on small calculators: all histories up to '
          'length 3 (4 thorough) over {Lij x, edit slot s of the last/first result, clearcache, regenerate, save/reload} on '
-         'the square lattice, then random histories of length <= 10 on 2-D, cubic, hexagonal and low-symmetry crystals; a '
-         'case is one history; non-trivial = at least two Lij calls and one state-changing op between; distinct by op text',
+         'the square lattice; every order of up to 3 evaluations (optionally with clearcache / reload / regenerate between) on '
+         'crystals with origin states (polar sites, non-zero bias correction); then random histories of length <= 10 on 2-D, '
+         'cubic, hexagonal, low-symmetry and polar crystals; an exception raised by the implementation inside a history is an '
+         'outcome (compared with the outcome on a new calculator), never a harness error; a case is one history; non-trivial = '
+         'at least two Lij calls with a state-changing op or a change of vacancy key between; distinct by op text',
     trusted=['Python ast classification of `.copy()` / `np.array()` / `np.copy()` as copies (harness/props/c14.py: extract)',
              'h5py core driver and PyYAML for the save/reload op',
              'BLAS/LAPACK run single-threaded in the harness; a last-bit (<1e-13 relative) difference is reported only if an '
@@ -138,26 +141,43 @@ class Session:
         self.returned = []
 
     def apply(self, op):
-        """returns None or the observed token list for an L op"""
+        """returns None, or for an L op the observed token list (['raise:<Class>'] * 4 when Lij raises).
+        Any exception raised by the implementation is caught and kept in self.error = (op, exception)."""
         k = op[0]
-        if k == 'L':
-            x = op[2]
-            res = self.d.Lij(*cm.copy_args(self.pool[x]))
-            self.returned.append(res)
-            return [_classify(res[s], self.ref[x][s], op[1] if s == 0 else x, s) for s in range(4)]
-        if k == 'M':
-            _, call, slot, c = op
-            self.returned[call][slot][...] = c
-        elif k == 'C':
-            self.d.clearcache()
-        elif k == 'R':
-            d = self.d
-            N = d.Nthermo
-            d.generate(N + 1); d.generate(N); d.generatematrices()
-            d.tags, d.tagdict, d.tagdicttype = d.generatetags()
-        elif k == 'S':
-            self.d = cm.reload_vm(self.d)
+        self.error = None
+        try:
+            if k == 'L':
+                x = op[2]
+                try:
+                    res = self.d.Lij(*cm.copy_args(self.pool[x]))
+                except Exception as e:
+                    self.returned.append(None)
+                    self.error = (op, e)
+                    return ['raise:' + type(e).__name__] * 4
+                self.returned.append(res)
+                if _raises(self.ref[x]):
+                    return ['ok-but-fresh-raises:' + self.ref[x][1]] * 4
+                return [_classify(res[s], self.ref[x][s], op[1] if s == 0 else x, s) for s in range(4)]
+            if k == 'M':
+                _, call, slot, c = op
+                if self.returned[call] is not None:           # nothing to edit if that call raised
+                    self.returned[call][slot][...] = c
+            elif k == 'C':
+                self.d.clearcache()
+            elif k == 'R':
+                d = self.d
+                N = d.Nthermo
+                d.generate(N + 1); d.generate(N); d.generatematrices()
+                d.tags, d.tagdict, d.tagdicttype = d.generatetags()
+            elif k == 'S':
+                self.d = cm.reload_vm(self.d)
+        except Exception as e:
+            self.error = (op, e)
         return None
+
+
+def _raises(refx):
+    return isinstance(refx, tuple) and len(refx) == 2 and refx[0] == 'raises'
 
 
 def _classify(arr, ref, ident, slot):
@@ -178,7 +198,7 @@ def _reproduced(name, pool, ref, hist, slot):
     out = None
     for op in hist: out = ses.apply(op)
     x = hist[-1][2]
-    return out is not None and not cm.same_bits(ses.returned[-1][slot], ref[x][slot])
+    return out is not None and ses.returned[-1] is not None and not cm.same_bits(ses.returned[-1][slot], ref[x][slot])
 
 
 def _optext(op):
@@ -206,7 +226,10 @@ def _pool(name, ctx_seed):
     ref = []
     for x in range(4):
         fresh = cm.make_vm(name, fresh=True)                  # a calculator that has never seen anything else
-        ref.append(tuple(np.array(r, copy=True) for r in fresh.Lij(*cm.copy_args(pool[x]))))
+        try:
+            ref.append(tuple(np.array(r, copy=True) for r in fresh.Lij(*cm.copy_args(pool[x]))))
+        except Exception as e:                                # the history-free outcome of this input is an exception
+            ref.append(('raises', type(e).__name__))
     _POOLS[key] = (pool, ref)
     return pool, ref
 
@@ -244,6 +267,36 @@ def _run_histories(ctx, mode, items, max_report=6):
             ctx.count('op:' + op[0])
             if op[0] == 'M': edited = True
             if op[0] != 'L': changed = True
+            hrep = dict(crystal=name, NGFmax=2, Nthermo=1, history=[_optext(o) for o in hist[:i + 1]],
+                        legend='L k x: Lij(pool[x]) (vacancy key k); M call slot c: result[call][slot][...]=c; '
+                               'C clearcache; R regenerate; S save+reload')
+            if out is None and ses.error is not None:
+                # clearcache / regenerate / save+reload / edit raised at this point of the history; a new calculator
+                # supports all of them, so the failure is a dependence on the history
+                sig = 'history-dependence:op-raises:%s:%s' % (op[0], type(ses.error[1]).__name__)
+                reported[sig] = reported.get(sig, 0) + 1
+                ctx.count('violating-results:' + sig)
+                if reported[sig] <= max_report:
+                    ctx.violation(sig, 'operation %s raises %r after this history (crystal %s)' % (_optext(op), ses.error[1], name), hrep)
+                break
+            if out is not None and out[0].startswith(('raise:', 'ok-but-fresh-raises:')):
+                nL += 1
+                expect = ['p%d.0' % op[1]] + ['p%d.%d' % (op[2], s) for s in (1, 2, 3)]
+                fresh = pool_ref = ref[op[2]]
+                if out[0].startswith('raise:') and _raises(fresh) and fresh[1] == out[0][6:]:
+                    ctx.count('consistent-exception')             # same exception class as on a new calculator
+                else:
+                    sig = 'history-dependence:%s:%s' % ('after-inplace-edit' if edited else 'no-edit',
+                                                        out[0].replace('raise:', 'raises:'))
+                    reported[sig] = reported.get(sig, 0) + 1
+                    ctx.count('violating-results:' + sig)
+                    if reported[sig] <= max_report:
+                        ctx.violation(sig, 'Lij %s after this history, while a new calculator %s for the same input (crystal %s)'
+                                      % ('raises %r' % (ses.error[1],) if ses.error else 'returns',
+                                         'raises ' + fresh[1] if _raises(fresh) else 'returns a result', name),
+                                      dict(hrep, input_hex=[cm.jarr(a) for a in pool[op[2]]]))
+                seen.append(','.join(expect))                     # the model speaks about values only
+                continue
             if out is not None:
                 nL += 1
                 seen.append(','.join(out))
@@ -286,7 +339,8 @@ def _run_histories(ctx, mode, items, max_report=6):
                                                       'C clearcache; R regenerate; S save+reload',
                                                input_hex=[cm.jarr(a) for a in pool[op[2]]],
                                                got_hex=cm.jarr(res[s]), fresh_hex=cm.jarr(ref[op[2]][s])))
-        ctx.case((name, [_optext(o) for o in hist]), nontrivial=(nL >= 2 and changed),
+        keys = {o[1] for o in hist if o[0] == 'L'}
+        ctx.case((name, [_optext(o) for o in hist]), nontrivial=(nL >= 2 and (changed or len(keys) > 1)),
                  sample=dict(crystal=name, history=[_optext(o) for o in hist]) if len(hist) > 3 else None)
         lines.append('%s | %s' % (mode, ';'.join(_optext(o) for o in hist)))
         obs.append(' '.join(seen) if seen else '-')
@@ -382,10 +436,23 @@ def run(ctx):
             if seq[-1][0] != 'L': continue          # only histories that end in an observation
             r = _resolve(seq)
             if r is not None: items.append(('sq', r))
+    # (1b) every order of up to 3 evaluations (with an optional clearcache / reload in between) on crystals with
+    #      origin states (polar sites: non-zero bare-vacancy bias correction, step 6c of Lij is active)
+    Ls = [('L', x // 2, x) for x in range(4)]
+    for name in (cm.ORIGIN_STATE_NAMES[:1] if ctx.quick else cm.ORIGIN_STATE_NAMES):
+        for ln in (2, 3):
+            for seq in itertools.product(Ls, repeat=ln):
+                if ctx.quick and ln == 3 and seq[0][1] == seq[1][1]: continue     # quick: the vacancy key changes after the first call
+                items.append((name, list(seq)))
+        for a in Ls:
+            for b in Ls:
+                if a[1] != b[1]:
+                    for mid in ((('C',), ('S',)) if ctx.quick else (('C',), ('S',), ('R',))):
+                        items.append((name, [a, b, mid, a])); items.append((name, [a, mid, b, a]))
     ctx.count('exhaustive-histories', len(items))
     # (2) random histories on the zoo
-    names = ['sq', 'hon', 'tri', 'fcc', 'sc', 'rect2'] if ctx.quick else \
-        ['sq', 'hon', 'tri', 'fcc', 'sc', 'bcc', 'b2', 'dia', 'rect2', 'tric', 'hcp']
+    names = ['sq', 'hon', 'tri', 'fcc', 'sc', 'rect2', 'pol2'] if ctx.quick else \
+        ['sq', 'hon', 'tri', 'fcc', 'sc', 'bcc', 'b2', 'dia', 'rect2', 'tric', 'hcp', 'pol2', 'pol3']
     nrand = 60 if ctx.quick else 1500
     for t in range(nrand):
         items.append((names[t % len(names)], _rand_hist(ctx.rng, ctx.rng.randint(3, 10))))
@@ -406,5 +473,5 @@ def search(ctx, reasons):
         items.append((name, [('L', 0, 0), ('L', 0, 1), ('M', 1, 0, 7), ('S',), ('L', 0, 0)]))
         items.append((name, [('L', 0, 0), ('M', 0, 0, 7), ('L', 1, 2), ('L', 0, 1)]))
     for t in range(100):
-        items.append((('sq', 'hon', 'fcc')[t % 3], _rand_hist(ctx.rng, 12)))
+        items.append((('sq', 'hon', 'fcc', 'rect2', 'pol2')[t % 5], _rand_hist(ctx.rng, 12)))
     _run_histories(ctx, mode, items)
